@@ -466,9 +466,6 @@ Proof.
   - rewrite ms_draw_hidden by (cbn; now destruct (ms_target (s_mp s))). split; reflexivity.
 Qed.
 
-Definition subject_hidden (s : sys) (o : op) : bool :=
-  match op_bar o with Some b => bar_hidden s b | None => mp_hidden s end.
-
 (** One call whose subject (the bar it is made on, or the MultiProgress itself) is hidden:
     the only TermLike calls are the ones the closure of a suspend makes itself, the call counter
     advances by exactly those, and the call reports Ok. *)
@@ -1335,3 +1332,11 @@ Proof.
     destruct (run W H fails s1 r) as [s2 e2]. cbn [fst snd] in *. subst e e2.
     repeat split; congruence.
 Qed.
+
+(** ProgressBarIter::next returning None: nothing at all on a finished bar, finish with the
+    stored ProgressFinish otherwise *)
+Theorem iter_none_spec W H fails s now b :
+  (finished (get_bar s b) = true -> iter_none_step W H fails s now b = (s, [], true)) /\
+  (finished (get_bar s b) = false ->
+   iter_none_step W H fails s now b = step W H fails s now (OFinish b (b_on_finish (get_bar s b)))).
+Proof. unfold iter_none_step. split; intros ->; reflexivity. Qed.
